@@ -15,7 +15,7 @@ from vf.core import CaseResult, Ctx, Violation, hyp_run, exc_sig
 
 PROP_ID = 'C36'
 LEVEL = 'exploration'
-BUDGET = {'quick': 4000, 'thorough': 200000}
+BUDGET = {'quick': 4000, 'thorough': 100000}
 RULE = (
     'Hypothesis renders a flow.cylc (plus 0-3 %include files, nested, one in '
     'a sub-directory) from a line grammar: section headings at depth 1-3 '
